@@ -3,6 +3,7 @@ is cut.  Virtual stream sockets (ld --wrap of coap_socket_read/write/accept/
 connect) feed reference-encoded TCP / WebSocket streams to libcoap sessions in
 chunks chosen by a cut plan; metamorphic + reference oracle."""
 import base64
+import hashlib
 import itertools
 
 from .. import build, common, gen, world
@@ -13,6 +14,7 @@ TCP_EP = "10.0.0.1:5683"
 WS_EP = "10.0.0.1:80"
 PEER = "10.0.7.1:50000"
 CLIENT_PEER = "10.0.9.1:5683"
+WS_CLIENT_PEER = "10.0.9.1:80"
 
 
 def gen_stream_messages(r, role):
@@ -141,6 +143,55 @@ def client_tcp_run(exe, stream, plan, seed):
             w.close(kill=True)
 
 
+WS_GUID = b"258EAFA5-E914-47DA-95CA-C5AB0DC85B11"
+
+
+def ws_client_run(exe, stream_of, plan, seed):
+    """a WebSocket client session; stream_of(request bytes) -> what the server sends (the HTTP
+    answer to the upgrade request depends on the key in it), cut by `plan`"""
+    w = world.World(exe, seed=seed, cmd_timeout=20)
+    try:
+        w.cmd("node 0")
+        w.cmd("ctx 0 max_token=64")
+        log = list(w.cmd("sess 0 0 ws %s" % WS_CLIENT_PEER))
+        conn = [e["conn"] for e in log if e["e"] == "tcp_connect"]
+        reqb = b"".join(bytes.fromhex(e["b"]) for e in log if e["e"] == "swrite")
+        if not conn or not reqb:
+            return {"crash": None, "nosess": True}
+        stream = stream_of(reqb)
+        log += w.cmd("prepare 0")
+        for ch in chunks(stream, plan):
+            log += w.cmd("stream %d 1 %s" % (conn[0], ch.hex()))
+        log += w.cmd("prepare 0")
+        surfaced = [digest(e) for e in log if e["e"] == "rsp"]
+        written = b"".join(bytes.fromhex(e["b"]) for e in log if e["e"] == "swrite")
+        closed = any(e["e"] == "closed" for e in log)
+        evs, rc, err = w.close()
+        return {"surfaced": surfaced, "written": written, "closed": closed, "rc": rc, "err": err,
+                "pings": sum(1 for e in log if e["e"] == "pong"), "stream": stream}
+    except world.WorldCrash as e:
+        return {"crash": e}
+    finally:
+        if not w.closed:
+            w.close(kill=True)
+
+
+def ws_server_stream(r, msgs):
+    """-> function(request bytes) -> HTTP 101 answer + unmasked frames (RFC 6455: a server does
+    not mask) with the CSM and the messages"""
+    frames = b"".join(cw.ws_frame(cw.encode(m, "ws")) for m in [cw.msg(0xE1)] + msgs)
+
+    def stream_of(reqb):
+        key = b""
+        for line in reqb.split(b"\r\n"):
+            if line.lower().startswith(b"sec-websocket-key:"):
+                key = line.split(b":", 1)[1].strip()
+        acc = base64.b64encode(hashlib.sha1(key + WS_GUID).digest())
+        return (b"HTTP/1.1 101 Switching Protocols\r\nUpgrade: websocket\r\nConnection: Upgrade\r\n"
+                b"Sec-WebSocket-Accept: " + acc + b"\r\nSec-WebSocket-Protocol: coap\r\n\r\n" + frames)
+    return stream_of, frames
+
+
 def expected_surface(msgs, role):
     out = []
     for m in msgs:
@@ -245,6 +296,39 @@ def work(job):
                     if pos + k + 1 < len(stream):
                         plans.append((pos + k, pos + k + 1))
                 pos += len(mbytes)
+        elif kind == "ws-client":
+            # responses of a WebSocket server to a libcoap client: small unmasked frames, so
+            # that several of them fit into one read of the frame-header buffer
+            msgs = gen_stream_messages(r, "client")
+            if r.random() < 0.5:
+                for m in msgs:
+                    m["token"] = m["token"][:2]
+                    m["payload"] = m["payload"][:r.choice([0, 1, 3])]
+                    m["options"] = []
+            stream_of, frames = ws_server_stream(r, msgs)
+            probe = ws_client_run(exe, stream_of, (), seed)
+            if probe.get("crash") is not None or probe.get("nosess"):
+                judge(run, kind, None, probe, (), b"", witness, stats, None)
+                continue
+            stream = probe["stream"]
+            hs_len = len(stream) - len(frames)
+            want = expected_surface(msgs, "client")
+            runner = lambda p: ws_client_run(exe, stream_of, p, seed)
+            plans = cut_plans(r, len(stream), tier, 0)
+            plans.append((hs_len,))
+            fpos = hs_len
+            rest = frames
+            while rest:
+                (_, _, pl), rem = cw.ws_parse_frames(rest)[0][0], None
+                hdrlen = 2 + (2 if len(pl) >= 126 else 0)
+                for k in range(0, hdrlen + 2):
+                    if fpos + k < len(stream):
+                        plans.append((fpos + k,))
+                        plans.append((hs_len, fpos + k))
+                flen = hdrlen + len(pl)
+                fpos += flen
+                rest = rest[flen:]
+            plans = plans[:160 if tier == "quick" else 1500]
         elif kind == "ws-server":
             msgs = gen_stream_messages(r, "server")
             hs = ws_handshake(r)
@@ -347,8 +431,8 @@ def main(tier):
                        "short reads clear CAN_READ like the real function)",
                        "TLS/WSS record layers are not exercised here"]
     exe = build.ensure_world("asan")
-    n = {"tcp-server": 40, "tcp-client": 24, "ws-server": 16} if tier == "quick" else \
-        {"tcp-server": 1500, "tcp-client": 800, "ws-server": 500}
+    n = {"tcp-server": 40, "tcp-client": 24, "ws-server": 16, "ws-client": 16} if tier == "quick" \
+        else {"tcp-server": 1500, "tcp-client": 800, "ws-server": 500, "ws-client": 500}
     jobs = []
     for kind, cnt in n.items():
         for i in range(0, cnt, 2):
